@@ -12,7 +12,7 @@ META = {
                    'states + an explicit reset on the error path). R17.3 global definitions of a failed line are removed or reading a '
                    'never-stored slot is defined. R17.4 nothing that persists across lines (VM.globals, Compiler.constants) may refer to '
                    'something whose lifetime is a single line (the per-run collector\'s objects, positions in the per-line code buffer).'
-                   ' R17.5 persistent VM fields are never cut back. R17.6 the reset after a failed line restores every Context field a declaration writes; only the true length of the outermost global scope counts as the mark to cut back to.',
+                   ' R17.5 persistent VM fields are never cut back. R17.6 the reset after a failed line restores every Context field a declaration writes; only the true length of the outermost global scope counts as the mark to cut back to. R17.7 the constant pool kept across lines merges only equal values (function descriptors by the whole word). R17.8 a successful line closes every scope and context it opens.',
     'not_decided': ['the session/concatenation equivalence itself (a relation between runs)'],
 }
 PERSISTENT = {'globals': "the session's variables", 'globals_assigned': "which of the session's variables have been stored to"}
